@@ -1568,6 +1568,15 @@ theorem from_resp_dsl_is_generated (name : Bytes) (args : List Bytes) (s : Spec)
         if r.arity.ok args.length then liftB (b.run args) else .error (.arity r.aerr) :=
   resp_dsl_is_generated resp_rows_describe_model regenerated_rows_definite name args s hf hb
 
+theorem from_resp_sub_dsl_is_generated (name sub : Bytes) (args : List Bytes) (fam aerr : Bytes) (subs : List Spec)
+    (dflt : Bytes → List Bytes → Res) (s : Spec)
+    (hf : findEntry table (kw name) = some (.family fam aerr subs dflt)) (hs : findSpec subs (kw sub) = some s)
+    (hb : s.body.plainDsl = true) :
+    ∃ r ∈ respRows, r.name = fam ++ 46 :: s.name ∧ ∃ b, r.body? = some b ∧
+      parseCmd (name :: sub :: args) =
+        if r.arity.ok args.length then liftB (b.run args) else .error (.arity r.aerr) :=
+  resp_dsl_sub_is_generated resp_rows_describe_model regenerated_rows_definite name sub args fam aerr subs dflt s hf hs hb
+
 /-- non-vacuity: the regenerated tables are not empty and know SET in all three grammars -/
 theorem regenerated_tables_nonempty :
     respRows.length = {n_resp} ∧ zcRows.length = {n_zc} ∧ luaRows.length = {n_lua} ∧
